@@ -1,6 +1,7 @@
 import NeatviVerif.Drive.Common
 import NeatviVerif.Drive.Ex
 import NeatviVerif.Model.ViCmd
+import NeatviVerif.Model.Screen
 /-! Correspondence for the vi command loop: `drive_vi` dumps the editor state at every command boundary;
 the model is run on the same file and keys and the two sequences of boundary states are compared. -/
 namespace Neatvi.Drive.ViD
@@ -84,6 +85,7 @@ structure ImplBd where
   screen : String
   repaint : String
   bad : String
+  ops : String := ""
 
 def parseImpl (res : String) : List ImplBd :=
   (res.splitOn "/").filterMap (fun rcd =>
@@ -95,7 +97,7 @@ def parseImpl (res : String) : List ImplBd :=
       else { kpos := natOf (f.getD 1 ""), xrow := intOf (f.getD 2 ""), xoff := intOf (f.getD 3 ""), xtop := intOf (f.getD 4 ""),
              xleft := intOf (f.getD 5 ""), len := natOf (f.getD 6 ""), dirty := f.getD 7 "" == "1", text := hexBytes (f.getD 8 ""),
              regs := f.getD 9 "", marks := f.getD 10 "" }
-    let r : ImplBd := { mark := mk, bd := bd, path := f.getD 11 "", cursor := f.getD 12 "", screen := f.getD 13 "", repaint := f.getD 14 "", bad := f.getD 15 "" }
+    let r : ImplBd := { mark := mk, bd := bd, path := f.getD 11 "", cursor := f.getD 12 "", screen := f.getD 13 "", repaint := f.getD 14 "", bad := f.getD 15 "", ops := f.getD 16 "" }
     some r)
 
 def fieldNames : List String := ["kpos", "xrow", "xoff", "xtop", "xleft", "len", "dirty", "text", "regs", "marks"]
